@@ -191,6 +191,26 @@ class Facts:
             if t['k'] == 'call':
                 yield i, t
 
+    def calls_deep(self, body):
+        """Like calls(), but also the calls made by the helpers (functions that do not exist on the reference tree)
+        the body calls, transitively - what the body's paths contain once those helpers are inlined."""
+        seen = set()
+        work = [body]
+        while work:
+            b = work.pop()
+            if b.name in seen:
+                continue
+            seen.add(b.name)
+            for i, t in self.calls(b):
+                yield i, t
+                for c in self.by_name.get(strip_generics(t['res']), []):
+                    if self.is_unknown_helper(c):
+                        work.append(c)
+            if b is not body or True:
+                for c in self.closures_of(b.nname):
+                    if self.is_unknown_helper(c):
+                        work.append(c)
+
     def all_calls(self):
         for b in self.bodies:
             for i, t in self.calls(b):
@@ -202,8 +222,27 @@ class Facts:
         if not known:
             return False
         if body.kind == 'Closure':
-            return body.parent is not None and body.parent not in known
-        return body.nname not in known
+            par = self.by_name.get(body.parent or '', [])
+            return len(par) == 1 and self.is_unknown_helper(par[0])
+        # a new function that users of the crate can call is a new entry point, not a helper: rules treat it like
+        # any other function (and report what it does)
+        return body.nname not in known and not body.reachable
+
+    def analysed_bodies(self):
+        """Bodies a rule should enumerate on their own: everything except helpers that do not exist on the reference
+        tree, whose code is seen inlined in (and attributed to) their callers."""
+        return [b for b in self.bodies if not self.is_unknown_helper(b)]
+
+    def attributed(self, body):
+        """Names of the reference-tree functions a body's code counts for: the body itself, or - for a helper that does
+        not exist on the reference tree (and its closures) - the known functions that (transitively) call it."""
+        if not self.is_unknown_helper(body):
+            return [body.nname]
+        cache = self.__dict__.setdefault('_attr', {})
+        h = body.parent if body.kind == 'Closure' else body.nname
+        if h not in cache:
+            cache[h] = sorted({c[0].nname for c in self.callers_of(lambda n: n == h)}) or [h]
+        return cache[h]
 
     def callers_of(self, pred):
         """All (body, block, term) whose declared or resolved callee satisfies pred(nname).
